@@ -106,6 +106,12 @@ func buildBucketKind(b gofakes3.Backend, kind int, maxKeys, maxKeyLen int, delim
 			panic(err)
 		}
 	}
+	if vb, ok := b.(gofakes3.VersionedBackend); ok && vsym.Param("versioned", 0) == 1 {
+		// deletes then leave delete markers, which listings must skip
+		if err := vb.SetVersioningConfiguration("bkt", gofakes3.VersioningConfiguration{Status: gofakes3.VersioningEnabled}); err != nil {
+			panic(err)
+		}
+	}
 	n := 1 + vsym.Choice("nkeys", maxKeys)
 	var live []liveObj
 	for i := 0; i < n; i++ {
